@@ -97,6 +97,9 @@ def finding_matches(f, pid, b):
     for k, v in m.get("cfg", {}).items():
         if b["cfg"].get(k) != v:
             return False
+    for k, vs in m.get("cfg_in", {}).items():
+        if b["cfg"].get(k) not in vs:
+            return False
     if "script" in m and m["script"] != b["script"]:
         return False
     return True
@@ -114,7 +117,13 @@ def check(pid, tier):
         for eng, prefixes in PROPS[pid]:
             res = eng.run(tier, scratch, drv)
             mine = [b for b in res["bad"] if any(b["op"].startswith(p) for p in prefixes)]
-            # a violation counts only if it reproduces on a second execution
+            # what an open, listed finding explains is reported as such (schedule-dependent findings need not
+            # show up twice in a row); any other violation counts only if it reproduces on a second execution
+            listed = [b for b in mine if any(finding_matches(f, pid, b) for f in kf)]
+            mine = [b for b in mine if b not in listed]
+            for b in listed:
+                b["engine"] = res["engine"]
+                known.append((b, [f for f in kf if finding_matches(f, pid, b)][0]))
             confirmed = []
             if mine:
                 ns = sorted({b["n"] for b in mine})[:200]
@@ -147,11 +156,10 @@ def check(pid, tier):
         vlib.write_evidence(pid, tier, cov, time.time() - t0, len(fresh), assume)
         for d in drift[:10]:
             print("DRIFT property=%s engine=%s case=%s cfg=%s %s" % (pid, d["engine"], d["n"], json.dumps(d["cfg"]), d.get("note", "")))
-        seen = set()
-        for b, f in known:
-            if f["id"] not in seen:
-                seen.add(f["id"])
-                print("KNOWN-FINDING: property=%s %s" % (pid, f["what"]))
+        for f in kf:
+            if f.get("status") == "open" and f.get("property") == pid:
+                hits = sum(1 for _, g in known if g["id"] == f["id"])
+                print("KNOWN-FINDING: property=%s %s [%s; met %d time(s) in this run]" % (pid, f["what"], f["id"], hits))
         if fresh:
             shown = set()
             for b, _ in fresh:
